@@ -29,6 +29,7 @@ import (
 	"github.com/zenon-network/go-zenon/chain/nom"
 	"github.com/zenon-network/go-zenon/common/db"
 	"github.com/zenon-network/go-zenon/common/types"
+	"github.com/zenon-network/go-zenon/vm/constants"
 	"github.com/zenon-network/go-zenon/vm/embedded/definition"
 	"github.com/zenon-network/go-zenon/wallet"
 
@@ -285,7 +286,10 @@ func c05Run(c *fw.C, caseID string) {
 	if equal {
 		mode = "equal-weights"
 	}
-	P := simnet.Open("P", base+"/P", world.NewGenesis(), world.PillarKeys)
+	// one more key: a pillar that the rich user registers in the middle of the run
+	extraKey, _ := wallet.DeriveWithIndex(uint32(7000+idx), []byte("0123456789abcdef"))
+	keys := append(append([]*wallet.KeyPair{}, world.PillarKeys...), extraKey)
+	P := simnet.Open("P", base+"/P", world.NewGenesis(), keys)
 	defer P.Stop()
 	w := simnet.NewWorkload(rand.New(rand.NewSource(r.Int63())), P)
 	w.Users = world.Users
@@ -299,6 +303,7 @@ func c05Run(c *fw.C, caseID string) {
 			return false
 		}
 		f := P.Frontier()
+		c.SetAdd("active_pillar_counts_seen_at_proof_candidates", fmt.Sprint(len(s.Pillars)))
 		ref.snapshots[f.Hash] = s
 		ref.chain = append(ref.chain, f)
 		return true
@@ -320,6 +325,22 @@ func c05Run(c *fw.C, caseID string) {
 			default:
 				w.One()
 			}
+		}
+		// a pillar registers mid-run (deposit the QSR cost first, register a few momentums later)
+		rich := world.Users[0]
+		if i == 12 {
+			cost := new(big.Int).Add(constants.PillarQsrStakeBaseAmount, new(big.Int).Mul(constants.PillarQsrStakeIncreaseAmount, big.NewInt(int64(nPillars))))
+			_, _ = P.Send(rich, types.PillarContract, types.QsrTokenStandard, cost, definition.ABIPillars.PackMethodPanic(definition.DepositQsrMethodName))
+		}
+		if i == 16 {
+			_, err := P.Send(rich, types.PillarContract, types.ZnnTokenStandard, new(big.Int).Set(constants.PillarStakeAmount),
+				definition.ABIPillars.PackMethodPanic(definition.RegisterMethodName, "pillar-registered-mid-run", extraKey.Address, rich.Address, uint8(0), uint8(100)))
+			if err == nil {
+				c.Count("pillar_registrations_submitted_mid_run", 1)
+			}
+		}
+		if i == 20 {
+			_, _ = P.Send(rich, types.PillarContract, types.ZnnTokenStandard, big.NewInt(0), definition.ABIPillars.PackMethodPanic(definition.DelegateMethodName, "pillar-registered-mid-run"))
 		}
 		skip := 0
 		if r.Intn(6) == 0 {
@@ -495,6 +516,9 @@ func c05Mutants(c *fw.C, world *simnet.World, P *simnet.Node, ref *c05Ref, base 
 		parent := N.Frontier()
 		honest := P.Detailed(h + 1)
 		producerKey := world.KeyOf(c05Address(honest.Momentum.PublicKey))
+		if producerKey == nil {
+			continue // produced by the pillar registered mid-run: its key is not part of the world
+		}
 		var otherPillar *wallet.KeyPair
 		for _, k := range world.PillarKeys {
 			if k.Address != producerKey.Address {
